@@ -966,9 +966,10 @@ func main() {
 		replay(p, hs)
 		return
 	}
-	run.Rule = "E1: for each scenario (one sequential client history on key a = Create, write, MarkComplete, SetMetadata/DeleteMetadata, optionally Delete + re-Create + write' + MarkComplete; plus independent observer / memory-pressure / retained-handle client threads; plus 1-2 flusher threads executing the real worker loop body) every interleaving up to the preemption bound at the scheduling points of the real code: 'coarse' phase = lock operations of lib/store/tiered + client-operation boundaries, 'fine' phase = additionally every lock operation of lib/store/memory and lib/store/disk. distinct = distinct observable outcomes (client results + flush/eviction pattern) per scenario and phase."
+	run.Rule = "E1: for each scenario (one sequential client history on key a = Create, write, MarkComplete, SetMetadata/DeleteMetadata, optionally Delete + re-Create + write' + MarkComplete; plus independent observer / memory-pressure / retained-handle client threads; plus 1-2 flusher threads executing the real worker loop body) every interleaving up to the preemption bound at the scheduling points of the real code: 'coarse' phase = lock operations of lib/store/tiered + client-operation boundaries, 'fine' phase = additionally every lock operation of lib/store/memory and lib/store/disk. distinct = distinct observable outcomes (client results + flush/eviction pattern) per scenario and phase. Plus 'handle-hist' (sequential, in-process): every history of length 1..3 (quick) / 1..4 (thorough) over the tiered.File method alphabet {Read 1 byte, Read 2 bytes, ReadAt 0, ReadAt 2, Size, Seek(0,Cur), Seek(+-1,Cur), Seek(1,Start), Seek(0,End)} on ONE open handle of a completed, flushed 3-byte blob, with the eviction from the memory tier (memory pressure: Create(b)) inserted at every position or absent, followed by a read to EOF; oracle = model cursor over the blob's bytes; distinct = distinct (history, results) pairs."
 	run.Assume("code between two lock operations is data-race free (sequentially consistent interleavings at synchronisation operations only)")
 	run.Assume("small-scope: keys a (size 2, up to 2 incarnations + sequential continuation) and b/c (pressure only), one metadata type, memory capacity 2-3 bytes, disk capacity 1 MiB (no disk eviction)")
+	run.Assume("handle-hist: one handle used by one thread (the eviction falls between two handle calls), at most one eviction per history, read-only handle methods, blob of 3 bytes, memory capacity 3 bytes; the value returned by Seek is not judged, only the bytes subsequently delivered")
 	run.Assume("the worker's blocking receive on f.notify is replaced by 'wait until the flusher queue is non-empty'; the loop body (nextToFlush+flush) is the real code, the flusher is built by the real newFlusher with 0 workers")
 	run.Assume("points before a lock release are not scheduling points (they only duplicate interleavings reachable from the next acquisition / the point after the release)")
 
@@ -1021,6 +1022,16 @@ func main() {
 				}
 			}
 		}
+	}
+	// handle histories (handle.go): in-process, every history of handle operations x eviction position
+	histDepth := 3
+	if run.Thorough() {
+		histDepth = 4
+	}
+	handleHistories(run, histDepth)
+	if os.Getenv("C09_HIST_ONLY") != "" { // debugging aid
+		run.Finish()
+		return
 	}
 	start := time.Now()
 	totalExec, totalOvl, totalEvict := 0, 0, 0
@@ -1284,6 +1295,9 @@ func replay(path string, hs []*vrt.Harness) {
 	if err := json.Unmarshal(b, &r); err != nil {
 		fmt.Fprintln(os.Stderr, err)
 		os.Exit(2)
+	}
+	if strings.HasPrefix(r.Case.Harness, histPrefix) {
+		hs = append(hs, histHarness(strings.Split(strings.TrimPrefix(r.Case.Harness, histPrefix), ",")))
 	}
 	for _, h := range hs {
 		if h.Name != r.Case.Harness {
